@@ -44,6 +44,7 @@ class PE:
         self.call_hook = call_hook  # call_hook(pe, call_node) -> value | None
         self.on_expr = on_expr  # on_expr(pe, stmt): expression statements met on the path (calls made for their effect)
         self.env = {}
+        self.attrs = {}  # "self.stroke" -> K(None) / RF: attribute values fixed by the scenario
         self.alg = Alg()
 
     # ------------------------------------------------------------------ values
@@ -59,6 +60,12 @@ class PE:
 
     def ev(self, node):
         """-> K | RF ; raises Raised for a Python exception decided by constants; AnalysisError when undecided"""
+        if isinstance(node, ast.Attribute) and self.attrs:
+            ch = attr_chain(node)
+            if ch and ".".join(ch) in self.attrs:
+                return self.attrs[".".join(ch)]
+            if ch and len(ch) > 2 and ".".join(ch[:-1]) in self.attrs and isinstance(self.attrs[".".join(ch[:-1])], K) and self.attrs[".".join(ch[:-1])].v is None:
+                raise Raised("AttributeError", node)
         if isinstance(node, ast.Constant):
             if isinstance(node.value, (int, float)) and not isinstance(node.value, bool):
                 return self.alg.ev(node)
@@ -108,6 +115,19 @@ class PE:
             return K(self.truth(node))
         if isinstance(node, ast.IfExp):
             return self.ev(node.body if self.truth(node.test) else node.orelse)
+        if isinstance(node, ast.BinOp) and isinstance(node.op, (ast.Add, ast.Sub, ast.Mult, ast.Div)):
+            l, r = self.ev(node.left), self.ev(node.right)
+            if isinstance(l, RF) and isinstance(r, RF):
+                op = node.op
+                return l + r if isinstance(op, ast.Add) else l - r if isinstance(op, ast.Sub) else l * r if isinstance(op, ast.Mult) else l / r
+            if isinstance(l, K) and isinstance(r, K) and isinstance(node.op, ast.Add) and type(l.v) is type(r.v) and isinstance(l.v, (str, list, tuple)):
+                return K(l.v + r.v)
+            return self.num(node)
+        if isinstance(node, ast.UnaryOp) and isinstance(node.op, ast.USub):
+            v = self.ev(node.operand)
+            if isinstance(v, RF):
+                return -v
+            return self.num(node)
         if isinstance(node, ast.Call):
             if self.call_hook is not None:
                 r = self.call_hook(self, node)
